@@ -252,10 +252,12 @@ PROPS['C20'] = dict(
          'cancelled beforehand, deadline on the virtual clock, client read failure in flight, failed open = client '
          'write error, client write failure in mid-stream, server write failure, call on a dead connection) x server chain length 0..6 (goat.ChainXInterceptor, single-interceptor option for 1) '
          'x client chain length 0..3 (by hand / go-grpc-middleware / single) x 1..3 stats handlers per side, with '
-         'unrelated RPCs before and after; every stage rewrites metadata, request, reply and error; '
+         'unrelated RPCs before and after; every stage rewrites metadata, request, reply and error; a server stage at every '
+         'position of chains of 1..6 that calls its handler a second time (retry) or not at all (refusal); unary calls whose '
+         'request the codec cannot encode or whose reply it cannot decode; '
          'non-trivial = runs at least one observed RPC (all scenarios); distinct = distinct (configuration, RPC list)',
     nontrivial_ops=['rpc:ok', 'rpc:herr', 'rpc:cancel', 'rpc:precancel', 'rpc:deadline', 'rpc:cread', 'rpc:cwrite',
-                    'rpc:cwmid', 'rpc:swrite', 'rpc:dead'],
+                    'rpc:cwmid', 'rpc:swrite', 'rpc:dead', 'rpc:badreq', 'rpc:badreply'],
     assumptions=COMMON_ASSUMPTIONS + [
         'the recording interceptors and stats handlers of harness/driver/x_observers.go log what they see at the '
         'point where they see it; an error is compared by status code and message, the way it survives the wire',
@@ -268,7 +270,8 @@ PROPS['C20'] = dict(
         dict(name='observers-design', spec='Observers.tla', cfg=_OBS_CFG, workers=8,
              constants='chained.go builders, processUnaryRpc/runStream, invoke/newStream, StatsStartServerRPC/'
                        'StatsEndRPC transcribed; client chain 0..3, server chain 0..6, 1..3 stats handlers per side, '
-                       'unary + stream, outcomes ok/herr/cancel/cwrite: 2016 programs replayed through the automata; '
+                       'unary + stream, outcomes ok/herr/cancel/cwrite, unencodable request / undecodable reply, a server '
+                       'stage calling its handler twice or not at all: 2856 programs replayed through the automata; '
                        'ASSUME ChainShape for n = 1..6'),
         dict(name='observers-mutant-skiplast', spec='Observers.tla',
              cfg=_OBS_CFG + 'CONSTANT Mut <- MutSkipLast\nCONSTANT MaxC <- MaxC1\nCONSTANT MaxH <- MaxH2\n', workers=4,
@@ -281,6 +284,15 @@ PROPS['C20'] = dict(
         dict(name='observers-mutant-dupend', spec='Observers.tla',
              cfg=_OBS_CFG + 'CONSTANT Mut <- MutDupEnd\nCONSTANT MaxC <- MaxC1\nCONSTANT MaxS <- MaxS2\nCONSTANT MaxH <- MaxH2\n', workers=4,
              constants='seeded fault: End emitted twice for a stream',
+             expect_violation='Invariant NotStuck is violated'),
+        dict(name='observers-mutant-cursor', spec='Observers.tla',
+             cfg=_OBS_CFG + 'CONSTANT Mut <- MutCursor\nCONSTANT MaxC <- MaxC1\nCONSTANT MaxH <- MaxH2\n', workers=4,
+             constants='seeded fault: the chain is walked by one closure with a forward-only cursor; a stage that calls '
+                       'its handler a second time resumes at the last interceptor',
+             expect_violation='Invariant NotStuck is violated'),
+        dict(name='observers-mutant-shadow', spec='Observers.tla',
+             cfg=_OBS_CFG + 'CONSTANT Mut <- MutShadow\nCONSTANT MaxC <- MaxC1\nCONSTANT MaxH <- MaxH2\n', workers=4,
+             constants='seeded fault: End.Error is nil for a unary call whose reply could not be decoded',
              expect_violation='Invariant NotStuck is violated'),
     ])
 
